@@ -895,6 +895,24 @@ struct Driver {
         disarm();
         r.clear();
         broken[a] = false;
+      } else if (op == "relocate") {
+        // C14: a set type that declares itself trivially relocatable is moved to another address by a raw byte copy,
+        // the source bytes are abandoned (poisoned) without running a destructor; the history continues on the copy
+        int b = static_cast<int>(I(2));
+        NEED_POOL(b);
+        NEED_ALIVE(a);
+        NEED(b != a && !alive[b], "pre");
+        NEED(amc::is_trivially_relocatable<S>::value, "notTR");
+        arm();
+        std::memcpy(static_cast<void *>(&raw[b]), static_cast<const void *>(&raw[a]), sizeof(S));
+        std::memset(static_cast<void *>(&raw[a]), 0xDD, sizeof(S));
+        disarm();
+        alive[b] = true;
+        alive[a] = false;
+        ref[b] = std::move(ref[a]);
+        ref[a].clear();
+        broken[b] = broken[a];
+        broken[a] = false;
       } else if (op == "swap") {
         int b = static_cast<int>(I(2));
         NEED_POOL(b);
